@@ -12,10 +12,20 @@ Definition den (s : mstate) : state := {| facts := den_facts s; fluents := den_f
 (* well-formed: facts are positive literals, every name is a clean token (non-empty, lower case, no blank, no parenthesis),
    and no predicate is called "=" (both readers of a state take such an item for a fluent assignment) *)
 Definition gp_ok (g : gpred) : bool := gp_pos g && atom_ok (gp_atom g) && negb (String.eqb (gp_name g) "=").
-Definition pf_ok (f : pfun) : bool := atom_ok (pf_atom f).
+(* ... and every fluent value is a float: what the parsers and the effects store (an int -- the never-set default 0 or an
+   int handed to set_value -- prints as "3", not "3.0": finding D90, C14_eq_int_refuted) *)
+Definition pf_ok (f : pfun) : bool := atom_ok (pf_atom f) && negb (pf_int f).
+
+Lemma pf_ok_atom f : pf_ok f = true -> atom_ok (pf_atom f) = true.
+Proof. unfold pf_ok. intros H. apply andb_true_iff in H as [H _]. exact H. Qed.
+Lemma pf_ok_float f : pf_ok f = true -> pf_int f = false.
+Proof. unfold pf_ok. intros H. apply andb_true_iff in H as [_ H]. apply negb_true_iff in H. exact H. Qed.
 Definition state_ok (s : mstate) : bool :=
   forallb gp_ok (all_preds s) && forallb pf_ok (dvalues (st_fluents s)).
 Definition values (s : mstate) : list float := map pf_val (dvalues (st_fluents s)).
+(* the names alone (what [state_ok] demanded before int values were modelled) *)
+Definition state_names_ok (s : mstate) : bool :=
+  forallb gp_ok (all_preds s) && forallb (fun f => atom_ok (pf_atom f)) (dvalues (st_fluents s)).
 
 Lemma set_map_inj {A B} (f : A -> B) (P : A -> Prop) (la lb : list A) :
   (forall x y, P x -> P y -> f x = f y -> x = y) -> Forall P la -> Forall P lb ->
@@ -62,17 +72,19 @@ Section Main.
 
   Definition ftext (kv : atom * float) : string := valued_text (fst kv) (num_text (snd kv)).
 
-  Lemma fluent_texts_den s : fluent_texts num_text s = map ftext (den_fluents s).
+  Lemma fluent_texts_den s : forallb pf_ok (dvalues (st_fluents s)) = true ->
+    fluent_texts num_text s = map ftext (den_fluents s).
   Proof.
-    unfold fluent_texts, den_fluents. rewrite map_map. apply map_ext. intros f.
-    apply pf_state_text_valued.
+    intros H. rewrite forallb_forall in H.
+    unfold fluent_texts, den_fluents. rewrite map_map. apply map_ext_in. intros f Hf.
+    apply pf_state_text_valued. apply pf_ok_float. exact (H f Hf).
   Qed.
 
   Lemma den_fluents_ok s : forallb pf_ok (dvalues (st_fluents s)) = true ->
     Forall (fun kv => atom_ok (fst kv) = true) (den_fluents s).
   Proof.
     intros H. rewrite forallb_forall in H. apply Forall_forall. intros kv Hkv.
-    apply in_map_iff in Hkv as (f & <- & Hf). exact (H f Hf).
+    apply in_map_iff in Hkv as (f & <- & Hf). apply pf_ok_atom. exact (H f Hf).
   Qed.
 
   Lemma in_den_fluents_value s k v : In (k, v) (den_fluents s) -> In v (values s).
@@ -128,7 +140,7 @@ Section Main.
   Proof.
     unfold state_ok. rewrite !andb_true_iff. intros [Hs1 Hs2] [Ht1 Ht2] Hn.
     rewrite state_eq_iff. unfold State_same, den. cbn [facts fluents].
-    rewrite (fact_texts_den s Hs1), (fact_texts_den t Ht1), !fluent_texts_den.
+    rewrite (fact_texts_den s Hs1), (fact_texts_den t Ht1), (fluent_texts_den s Hs2), (fluent_texts_den t Ht2).
     rewrite (set_map_inj atom_text (fun a => atom_ok a = true));
       [|intros x y Hx Hy; apply atom_text_inj; assumption|apply den_facts_ok; assumption..].
     rewrite fluents_texts_iff;
